@@ -186,6 +186,10 @@ func runC08(e *core.Env) {
 				o = append(o, regclient.WithManifestCheckReferrers())
 			}
 			err = rc.ManifestDelete(ctx, mustRef(base+"@"+imgs[op.Img].Root.Digest), o...)
+			if err == nil {
+				// (generated images may share a manifest: what the user deleted by digest is not demanded below another tag)
+				neverCopied[imgs[op.Img].Root.Digest] = true
+			}
 		case "push-referrer":
 			// a referrer is added by copying it by digest (a bare BlobPut+ManifestPut sequence is not
 			// an image copy and enjoys no protection from a concurrent Close: not this property's business)
